@@ -48,6 +48,35 @@ def method_form(ctx, name, N):
     return f, e
 
 
+def _push_column_selection(e):
+    """(A op B)[:, m]  ->  A[:, m] op B[:, m]   for element-wise + - * / **, where a column vector `x[:, None]` and a constant are their
+    own selection (they broadcast along the selected axis): selecting columns of an element-wise result selects the operands' columns"""
+    import copy
+
+    def is_col_sel(sl):
+        return isinstance(sl, ast.Tuple) and len(sl.elts) == 2 and isinstance(sl.elts[0], ast.Slice) and sl.elts[0].lower is None and sl.elts[0].upper is None \
+            and sl.elts[0].step is None
+
+    def push(x, sl):
+        if isinstance(x, ast.Constant):
+            return x
+        if isinstance(x, ast.Subscript) and isinstance(x.slice, ast.Tuple) and len(x.slice.elts) == 2 and isinstance(x.slice.elts[1], ast.Constant) and x.slice.elts[1].value is None:
+            return x                                    # a column vector x[:, None]
+        if isinstance(x, ast.BinOp) and isinstance(x.op, (ast.Add, ast.Sub, ast.Mult, ast.Div, ast.Pow)):
+            return ast.BinOp(left=push(x.left, sl), op=x.op, right=push(x.right, sl))
+        if isinstance(x, ast.UnaryOp) and isinstance(x.op, (ast.USub, ast.UAdd)):
+            return ast.UnaryOp(op=x.op, operand=push(x.operand, sl))
+        return ast.Subscript(value=x, slice=copy.deepcopy(sl), ctx=ast.Load())
+
+    class T(ast.NodeTransformer):
+        def visit_Subscript(self, n):
+            self.generic_visit(n)
+            if is_col_sel(n.slice) and isinstance(n.value, (ast.BinOp, ast.UnaryOp)) and isinstance(n.ctx, ast.Load):
+                return ast.fix_missing_locations(ast.copy_location(push(n.value, n.slice), n))
+            return n
+    return T().visit(copy.deepcopy(e))
+
+
 def r1(ctx):
     N = Norm(strict=False)
     sq = "(self.predictions - self.observations[:, None]) ** 2"
@@ -87,6 +116,7 @@ def r1(ctx):
             if N.key(g_.iter) == N.key(parse_expr("np.unique(self.chain_ids)")):
                 outer = {k_: v_ for k_, v_ in single_defs(f.node).items() if k_ != c}        # loop-invariant values named before the comprehension
                 v = inline_calls(inline(comp.elt, outer), ctx.R, f.mod, class_q=ME)
+                v = _push_column_selection(v)
                 want = parse_expr(f"((self.predictions[:, self.chain_ids == {c}] - self.observations[:, None]) ** 2).mean()")
                 ok = N.key(v) == N.key(want)
                 detail = f"per-chain value `{U(v)[:100]}`"
